@@ -518,10 +518,22 @@ func firstDiff(a, b []byte) int {
 	return min(len(a), len(b))
 }
 
-func TestPropPermutations(t *testing.T) {
-	permProp.Rapid(t, func(t *rapid.T) PermCase {
-		return PermCase{In: genInput(t), Perms: rapid.SliceOfN(rapid.Uint64Range(1, 1<<40), 1, 3).Draw(t, "perms"), Reps: 8}
-	})
+func genPermCase(t *rapid.T) PermCase {
+	return PermCase{In: genInput(t), Perms: rapid.SliceOfN(rapid.Uint64Range(1, 1<<40), 1, 3).Draw(t, "perms"), Reps: 8}
+}
+
+func TestPropPermutations(t *testing.T) { permProp.Rapid(t, genPermCase) }
+
+// TestConcPermutations: batches of 8 DIFFERENT inputs (other certificates, keys, payloads,
+// versions) serialised at the same time on 8 goroutines, each compared with itself (see
+// vh.Prop.Concurrent). TestPropConcurrent shares objects between goroutines; this one is about
+// state shared between separate objects.
+func TestConcPermutations(t *testing.T) {
+	permProp.Concurrent(t, func(t *rapid.T) PermCase {
+		c := genPermCase(t)
+		c.Perms, c.Reps = c.Perms[:1], 3
+		return c
+	}, 8, 2)
 }
 
 // ---------------------------------------------------------------------------------------
